@@ -222,6 +222,9 @@ pub struct E2eCase {
     /// that many further connections send a complete request and hang up 0-600 microseconds later, without reading
     #[serde(default)]
     pub hangups: u16,
+    /// how the host answers relayed requests: 0 plainly; 1 chunked with a trailer section; 2 chunked, several trailer fields, 1-byte chunks
+    #[serde(default)]
+    pub host_reply: u8,
 }
 
 fn tchar_method() -> impl Strategy<Value = String> {
@@ -267,12 +270,12 @@ pub fn e2e_strategy() -> impl Strategy<Value = E2eCase> {
         any::<bool>(),
         0u8..4,
         any::<bool>(),
-        (prop::collection::vec(hostile_req(), 1..4), prop_oneof![6 => Just(0u8), 2 => Just(1u8), 1 => Just(2u8)], prop_oneof![27 => Just(0u16), 1 => Just(40u16), 1 => Just(160u16), 1 => Just(400u16)]),
+        (prop::collection::vec(hostile_req(), 1..4), prop_oneof![6 => Just(0u8), 2 => Just(1u8), 1 => Just(2u8)], prop_oneof![27 => Just(0u16), 1 => Just(40u16), 1 => Just(160u16), 1 => Just(400u16)], prop_oneof![6 => Just(0u8), 1 => Just(1u8), 1 => Just(2u8)]),
     )
-        .prop_map(|(exe_name, wide, wide_count, shift, uid, is_root, policy, key, (requests, caller_state, hangups))| E2eCase { exe_name, wide, wide_count, shift, uid, is_root, policy, key, requests, caller_state, hangups })
+        .prop_map(|(exe_name, wide, wide_count, shift, uid, is_root, policy, key, (requests, caller_state, hangups, host_reply))| E2eCase { exe_name, wide, wide_count, shift, uid, is_root, policy, key, requests, caller_state, hangups, host_reply })
 }
 
-pub const RULE_E2E: &str = "part B: through the real listener with a key latched in half of the cases: (i) requests that are syntactically valid by RFC 9112 - extension methods, origin/absolute/asterisk targets, paths ending in arbitrary %XX escapes (any byte value, e.g. %FF, %80, a lone %C3, %00), targets of 1-120 KB, HTTP/1.0, header values with obs-text bytes 0x80-0xFF and tabs, values of 1-9 KB, one header repeated 2-150 times (around hyper's 100-header limit), bodies as Content-Length / chunked / chunked with extensions and a trailer / Expect: 100-continue; (ii) callers = freshly exec'ed helper processes whose executable name and argv contain long runs of 2/3/4-byte characters (300-6000 of them, shifted by 0-7 ASCII bytes) so that the connection-summary JSON and the 'Block unauthorized request' text cross bytes 4096 inside a character, users with multi-byte names from the generated passwd; in a third of the cases the caller has exited by the time its connection is accepted (not yet reaped: no exe link and an empty command line; or its pid is gone); IMDS under allow / enforce-deny / audit-deny rule sets and WireServer; in a tenth of the cases 40-400 further keep-alive connections complete one exchange, send a second complete request and are reset 0-600 microseconds later, before its response. oracle: the process-wide panic hook stays empty; every request receives a status line; after each case a canary request on a fresh attributed connection is relayed (200) and, every 25th case, status.json written by the real status task has advanced. non-trivial: a caller with >= 300 wide characters, or a header value with an obs-text byte, or a repeated header >= 99 times, or a target >= 60 KB; distinct by hash of the case.";
+pub const RULE_E2E: &str = "part B: through the real listener with a key latched in half of the cases: (i) requests that are syntactically valid by RFC 9112 - extension methods, origin/absolute/asterisk targets, paths ending in arbitrary %XX escapes (any byte value, e.g. %FF, %80, a lone %C3, %00), targets of 1-120 KB, HTTP/1.0, header values with obs-text bytes 0x80-0xFF and tabs, values of 1-9 KB, one header repeated 2-150 times (around hyper's 100-header limit), bodies as Content-Length / chunked / chunked with extensions and a trailer / Expect: 100-continue; (ii) callers = freshly exec'ed helper processes whose executable name and argv contain long runs of 2/3/4-byte characters (300-6000 of them, shifted by 0-7 ASCII bytes) so that the connection-summary JSON and the 'Block unauthorized request' text cross bytes 4096 inside a character, users with multi-byte names from the generated passwd; in a third of the cases the caller has exited by the time its connection is accepted (not yet reaped: no exe link and an empty command line; or its pid is gone); IMDS under allow / enforce-deny / audit-deny rule sets and WireServer; in a quarter of the cases the host answers relayed requests chunked with a trailer section; in a tenth of the cases 40-400 further keep-alive connections complete one exchange, send a second complete request and are reset 0-600 microseconds later, before its response. oracle: the process-wide panic hook stays empty; every request receives a status line; after each case a canary request on a fresh attributed connection is relayed (200) and, every 25th case, status.json written by the real status task has advanced. non-trivial: a caller with >= 300 wide characters, or a header value with an obs-text byte, or a repeated header >= 99 times, or a target >= 60 KB; distinct by hash of the case.";
 
 fn deny_all(mode: &str) -> GDoc {
     GDoc {
@@ -364,6 +367,7 @@ fn wire_of(r: &HostileReq) -> Vec<u8> {
 
 pub fn eval_e2e(rig: &Rig, st: &mut E2eState, case: &E2eCase, stats: &mut Stats) -> Outcome {
     let _ = crate::runner::take_panics();
+    rig.mock.set_responder(Box::new(|_r| crate::mockhost::ResponseSpec::ok(b"mock")));
     // ---- the caller ----
     let mut args: Vec<String> = Vec::new();
     if case.wide_count > 0 {
@@ -410,6 +414,26 @@ pub fn eval_e2e(rig: &Rig, st: &mut E2eState, case: &E2eCase, stats: &mut Stats)
         stats.class("caller:multi-byte-user-name");
     }
 
+    // ---- the host's way of answering ----
+    match case.host_reply % 3 {
+        1 => {
+            stats.class("host-reply:chunked-with-trailer-section");
+            rig.mock.set_responder(Box::new(|_r| {
+                let mut s = crate::mockhost::ResponseSpec::ok(b"hello from the host");
+                s.framing = crate::mockhost::RespFraming::ChunkedTrailers(vec![5], vec![("x-ms-checksum".into(), "abc123".into())]);
+                s
+            }));
+        }
+        2 => {
+            stats.class("host-reply:chunked-with-trailer-section");
+            rig.mock.set_responder(Box::new(|_r| {
+                let mut s = crate::mockhost::ResponseSpec::ok(b"0123456789");
+                s.framing = crate::mockhost::RespFraming::ChunkedTrailers(vec![1], vec![("x-a".into(), "1".into()), ("Expires".into(), "never".into()), ("x-\u{e9}".chars().filter(|c| c.is_ascii()).collect::<String>() + "b", "v".into())]);
+                s
+            }));
+        }
+        _ => {}
+    }
     // ---- the requests, one connection each ----
     for (i, r) in case.requests.iter().enumerate() {
         let wire = wire_of(r);
@@ -500,6 +524,7 @@ pub fn eval_e2e(rig: &Rig, st: &mut E2eState, case: &E2eCase, stats: &mut Stats)
         std::thread::sleep(Duration::from_millis(20));
         let _ = rig.mock.take_requests();
     }
+    rig.mock.set_responder(Box::new(|_r| crate::mockhost::ResponseSpec::ok(b"mock")));
     // ---- canary ----
     rig.set_rules(None, None, None);
     let canary = crate::rig::Rec { uid_sel: 1, helper_sel: 0, is_root: false, dest: crate::rig::DestSel::Imds };
